@@ -734,6 +734,22 @@ def _slice_from_grid(run, P):
         run.holds("F-TABLE/slice-data", c, where(f, rets[0]), "result carries the sliced grid")
     else:
         run.violation("F-TABLE/slice-data", c, where(f), "the sliced data are not attached to the sliced grid")
+    # the coordinates handed to the new array are those of the SLICED data: the source's own coordinates still have the source's length along the grid dimension
+    c = f"{f.key}:coords-of-the-sliced-data"
+    me = f.params()[0]
+    for r in rets:
+        if not isinstance(r.value, ast.Call):
+            continue
+        cv = next((k.value for k in r.value.keywords if k.arg == "coords"), None)
+        if cv is None:
+            run.holds("F-TABLE/slice-data", c, where(f, r), "no coords argument: they come with the sliced data")
+        elif norm(cv) in (f"{me}.coords", f"{me}._coords"):
+            run.violation("F-TABLE/slice-data", c, where(f, r), f"the sliced data are given coords={norm(cv)}, the coordinates of the UNSLICED array: a variable with a coordinate along the sliced grid dimension "
+                          "cannot be subset (xarray rejects the conflicting sizes)")
+        elif isinstance(cv, ast.Attribute) and cv.attr in ("coords", "_coords") and norm(cv.value) != me:
+            run.holds("F-TABLE/slice-data", c, where(f, r), f"coords={norm(cv)}: sliced together with the data")
+        else:
+            run.incomplete("F-TABLE/slice-data", c, where(f, r), f"coords={norm(cv)[:50]} not recognised")
 
 
 def _accessors(run, P):
